@@ -226,6 +226,15 @@ def defect_classes(pre, op):
                     owned += ifs_of_node(n)
         if any(g.typ(i) == 'ServicePort' for i in owned):
             out.append('owned-serviceport')
+    if kind == 'unpeer':
+        # really peered: a ServicePort of each, facing each other over a link
+        direct = False
+        for sp in ifs_of_ns(a[0]):
+            for (l, y) in g.peers(sp):
+                if a[1] in g.nb(y, 'connects', NS) and g.typ(sp) == 'ServicePort' and g.typ(y) == 'ServicePort':
+                    direct = True
+        if not direct:
+            out.append('not-peered')
     if kind in ('connect', 'add_ns', 'add_pm'):
         # connect_interface derives the names of the service port and of the link from <owner node>-<interface>
         def owner_name(i):
